@@ -308,12 +308,12 @@ func checkC13(w *World, r *Report) {
 	}
 	r.Check(len(hits) == 0, "EXT-ORDER", "msg:no-writer", keeperPath, "no message handler can write the last matched length", strings.Join(hits, ", "))
 	// an extended round lasts until its own (the last) end time: the settlement decision is taken against last(EndTimes)
-	r.Sub(checkC08, "TIME-POL")
+	r.SubWhere(checkC08, keepPrefix("settle:"), "TIME-POL")
 	// the agreed extended-round rate and the counts compared with it are not changed by the comparison itself
 	checkNoMut(w, r, tm, "NO-MUT")
 	// an extension that fails (the end-time setter, the store write) is reported, not taken for done: otherwise the
 	// round counter does not advance and the auction is extended for ever
-	r.Sub(checkC07, "BB-ERRPROP")
+	r.SubWhere(checkC07, keepAny("ExtendRound", "CloseBatchAuction", "ExecuteStartedStatus", "BeginBlocker", "AppModule).BeginBlock", "SetMatchedBidsLen", "GetLastMatchedBidsLen"), "BB-ERRPROP")
 }
 
 type endWriteRule struct {
